@@ -1,11 +1,184 @@
+import TinsModel.Follower.Spec
 import Driver.Util
-/- line-protocol driver for property C07 (stub until the area is built) -/
+/- line-protocol driver for property C07 (StreamFollower): model mode and spec (oracle) mode.
+   Line formats: see harness/c07_follower.cpp. -/
 namespace Driver.C07
-open Driver
+open Tins Tins.DT Tins.SF Driver
 
-def step (st : Unit) (_line : String) : Unit × String := (st, "unimplemented")
-def specStep (st : Unit) (_line : String) : Unit × String := (st, "unimplemented")
-def initModel : Unit := ()
-def initSpec : Unit := ()
+def hexToNat (s : String) : Option Nat := (parseHex s).map (fun bs => bs.foldl (fun a b => a * 256 + b.toNat) 0)
+
+def natToHex (digits n : Nat) : String :=
+  String.ofList ((List.range digits).reverse.map (fun i => hexChar ((n / 16 ^ i) % 16)))
+
+def addrHex (v6 : Bool) (a : Nat) : String := natToHex (if v6 then 32 else 8) a
+
+def kvOf (ws : List String) (key : String) : Option String :=
+  ws.findSome? (fun w => if w.startsWith (key ++ "=") then some ((w.drop (key.length + 1)).toString) else none)
+
+def kvNat (ws : List String) (key : String) (dflt : Nat) : Nat := ((kvOf ws key).bind (·.toNat?)).getD dflt
+
+def showSid (s : Sid) : String :=
+  s!"{if s.v6 then "v6" else "v4"}:{addrHex s.v6 s.caddr}:{s.cport}>{addrHex s.v6 s.saddr}:{s.sport}"
+
+def b01 (b : Bool) : String := if b then "1" else "0"
+
+def stateName : FState → String
+  | .unknown => "UNKNOWN" | .synSent => "SYN_SENT" | .established => "ESTABLISHED"
+  | .finSent => "FIN_SENT" | .rstSent => "RST_SENT"
+
+def reasonName : Reason → String
+  | .timeout => "TIMEOUT" | .bufferedData => "BUFFERED_DATA" | .sackedSegments => "SACKED_SEGMENTS"
+
+def realBytes (f : Flow) : Nat := (f.tr.buf.map (fun c => c.2.length)).sum
+
+def showStatus (s : Stream) : String :=
+  let c := s.client; let v := s.server
+  s!"{showSid s.sid} partial={b01 s.isPartial} cst={stateName c.state} sst={stateName v.state} " ++
+  s!"cseq={c.tr.seq} sseq={v.tr.seq} cch={c.tr.buf.length} sch={v.tr.buf.length} cb={c.tr.total} sb={v.tr.total} " ++
+  s!"real={realBytes c + realBytes v} cpl={c.tr.payload.length} spl={v.tr.payload.length} " ++
+  s!"cmss={c.mss} smss={v.mss} csack={b01 c.sackPermitted} ssack={b01 v.sackPermitted} " ++
+  s!"created={s.createTime} seen={s.lastSeen}"
+
+def showEv {κ} (ooo : Bool) : Ev κ → Option String
+  | .new _ sid p => some s!"new {showSid sid} partial={b01 p}"
+  | .ooo _ sid c q d => if ooo then some s!"{if c then "cooo" else "sooo"} {showSid sid} seq={q} len={d.length} h={fnv d}" else none
+  | .data _ sid c pl => some s!"{if c then "cdata" else "sdata"} {showSid sid} len={pl.length} h={fnv pl}"
+  | .closed _ sid => some s!"closed {showSid sid}"
+  | .term _ sid r ch by_ => some s!"term {showSid sid} {reasonName r} chunks={ch} bytes={by_}"
+
+def parseCfg (ws : List String) : Cfg × Bool :=
+  ({ attach := kvNat ws "attach" 0 == 1, maxChunks := kvNat ws "maxc" 512, maxBytes := kvNat ws "maxb" 3145728,
+     keepAlive := kvNat ws "ka" 300000000, acl := kvNat ws "acl" 1 == 1 }, kvNat ws "ooo" 0 == 1)
+
+def parsePkt (ws : List String) : Option Pkt :=
+  match ws with
+  | _ :: ts :: fam :: src :: sport :: dst :: dport :: flags :: seq :: ack :: pl :: rest => do
+    let ts ← ts.toNat?
+    let src ← hexToNat src
+    let sport ← sport.toNat?
+    let dst ← hexToNat dst
+    let dport ← dport.toNat?
+    let flags ← flags.toNat?
+    let seq ← seq.toNat?
+    let ack ← ack.toNat?
+    let payload ← if pl == "none" then some none else (parseHex pl).map some
+    pure { v6 := fam == "v6", src := src, sport := sport, dst := dst, dport := dport, flags := flags % 4096,
+           seq := seq % 4294967296, ack := ack % 4294967296, payload := payload,
+           mss := (kvOf rest "mss").bind (·.toNat?), sackOk := rest.contains "sack", ts := ts }
+  | _ => none
+
+structure MState where
+  cfg : Cfg := ⟨false, 512, 3145728, 300000000, true⟩
+  ooo : Bool := false
+  F : Model := Follower.empty
+
+def findStatus (F : Model) (v6 : Bool) (a ap b bp : Nat) : String :=
+  match find? F.streams (mkIdent (pad v6 a) ap (pad v6 b) bp) with
+  | some s => showStatus s
+  | none => "none"
+
+def step (st : MState) (line : String) : MState × String :=
+  let ws := words line
+  match ws with
+  | "case" :: rest => let (c, o) := parseCfg rest; ({ cfg := c, ooo := o, F := Follower.empty }, "case")
+  | "decl" :: _ => (st, "decl")
+  | ["find", fam, a, ap, b, bp] =>
+    match hexToNat a, ap.toNat?, hexToNat b, bp.toNat? with
+    | some a, some ap, some b, some bp => (st, "find " ++ findStatus st.F (fam == "v6") a ap b bp)
+    | _, _, _, _ => (st, "bad-op")
+  | "pkt" :: _ =>
+    match parsePkt ws with
+    | some p =>
+      let (F', evs) := Model.step st.cfg st.F p
+      let es := evs.filterMap (showEv st.ooo)
+      ({ st with F := F' }, (if es.isEmpty then "-" else joinWith ";" es) ++ " | " ++ findStatus F' p.v6 p.src p.sport p.dst p.dport)
+    | none => (st, "bad-op")
+  | _ => (st, "bad-op")
+
+def initModel : MState := {}
+
+/-! ### oracle mode -/
+
+def parseSid (s : String) : Option Sid :=
+  match s.splitOn ":" with
+  | [fam, ca, mid, sp] =>
+    match mid.splitOn ">" with
+    | [cp, sa] => do
+      let ca ← hexToNat ca; let cp ← cp.toNat?; let sa ← hexToNat sa; let sp ← sp.toNat?
+      pure ⟨fam == "v6", ca, cp, sa, sp⟩
+    | _ => none
+  | _ => none
+
+def parseReason : String → Option Reason
+  | "TIMEOUT" => some .timeout | "BUFFERED_DATA" => some .bufferedData | "SACKED_SEGMENTS" => some .sackedSegments
+  | _ => none
+
+def parseObsEv (e : String) : Option ObsEv :=
+  let ws := words e
+  match ws with
+  | "new" :: sid :: rest => do
+    let sid ← parseSid sid; let p ← kvOf rest "partial"
+    pure (.new sid (p == "1"))
+  | "cdata" :: sid :: rest => do
+    let sid ← parseSid sid; let l ← (kvOf rest "len").bind (·.toNat?); let h ← (kvOf rest "h").bind (·.toNat?)
+    pure (.data sid true l h)
+  | "sdata" :: sid :: rest => do
+    let sid ← parseSid sid; let l ← (kvOf rest "len").bind (·.toNat?); let h ← (kvOf rest "h").bind (·.toNat?)
+    pure (.data sid false l h)
+  | "cooo" :: sid :: _ => (parseSid sid).map (fun s => .ooo s true)
+  | "sooo" :: sid :: _ => (parseSid sid).map (fun s => .ooo s false)
+  | ["closed", sid] => (parseSid sid).map .closed
+  | "term" :: sid :: r :: rest => do
+    let sid ← parseSid sid; let r ← parseReason r
+    let c ← (kvOf rest "chunks").bind (·.toNat?); let b ← (kvOf rest "bytes").bind (·.toNat?)
+    pure (.term sid r c b)
+  | _ => none
+
+/-- `none` = unparsable, `some none` = no stream -/
+def parseStatus (s : String) : Option (Option ObsStatus) :=
+  let ws := words s
+  match ws with
+  | ["none"] => some none
+  | sid :: rest => do
+    let sid ← parseSid sid
+    let g := fun k => (kvOf rest k).bind (·.toNat?)
+    let cch ← g "cch"; let sch ← g "sch"; let cb ← g "cb"; let sb ← g "sb"; let real ← g "real"
+    pure (some ⟨sid, cch, sch, cb, sb, real⟩)
+  | _ => none
+
+def showVerdict : Verdict → String
+  | .ok => "ok" | .unspecified => "unspecified" | .violates c d => s!"violates {c} {d}"
+
+def specStep (o : Oracle) (line : String) : Oracle × String :=
+  match line.splitOn " ||| " with
+  | [op, out] =>
+    let ws := words op
+    match ws with
+    | "case" :: rest => ({ cfg := (parseCfg rest).1 }, "ok")
+    | ["decl", fam, a, ap, b, bp, isn, hex] =>
+      match hexToNat a, ap.toNat?, hexToNat b, bp.toNat?, isn.toNat?, parseHex hex with
+      | some a, some ap, some b, some bp, some isn, some d =>
+        ({ o with decls := ⟨fam == "v6", ⟨a, ap⟩, ⟨b, bp⟩, isn, d⟩ :: o.decls }, "ok")
+      | _, _, _, _, _, _ => ({ o with broken := true }, "bad-line")
+    | ["find", fam, a, ap, b, bp] =>
+      match hexToNat a, ap.toNat?, hexToNat b, bp.toNat?, parseStatus ((out.drop 5).toString) with
+      | some a, some ap, some b, some bp, some st =>
+        let (o', v) := o.find (fam == "v6") ⟨a, ap⟩ ⟨b, bp⟩ st
+        (o', showVerdict v)
+      | _, _, _, _, _ => ({ o with broken := true }, "violates unparsable-output find")
+    | "pkt" :: _ =>
+      match parsePkt ws, out.splitOn " | " with
+      | some p, [evs, st] =>
+        let evs := if evs.trimAscii.toString == "-" then some [] else (evs.splitOn ";").mapM parseObsEv
+        match evs, parseStatus st with
+        | some evs, some st =>
+          let (o', v) := o.packet p evs st
+          (o', showVerdict v)
+        | _, _ => ({ o with broken := true }, "violates unparsable-output pkt")
+      | _, _ => ({ o with broken := true }, "violates unparsable-output pkt")
+    | _ => (o, "bad-line")
+  | _ => (o, "bad-line")
+
+def initSpec : Oracle := {}
 
 end Driver.C07
